@@ -468,6 +468,12 @@ func runC05Workflows(seed int64, tier string) map[string]any {
 			out["failing_workload"] = []string{"out-port linked to in-port", "write (accepted, unanswered)", "process exit in one goroutine; the reader's drop notice held at the top of Writer.receive", "write on the same writer from another goroutine"}
 		}
 	}
+	if _, bad := out["failure"]; !bad {
+		if f := probeAgentExitDuringOpen05(); f != "" {
+			out["failure"] = f
+			out["failing_workload"] = []string{"a symbol loaded into the agent", "an open hook that runs ahead of the agent's exits the process while its in-port is being opened", "Agent.Processes / Agent.Frames afterwards"}
+		}
+	}
 	if ok, detail := witnessC05d(); ok {
 		out["known_confirmed"] = []string{"F-C05-d"}
 		out["F-C05-d_witness"] = detail
@@ -480,4 +486,46 @@ func runC05Workflows(seed int64, tier string) map[string]any {
 	out["workload_rule"] = "src -> A -> B -> sink with held actions, 1-3 processes with 1-3 requests each, random releases / sink answers, then every process exits mid-flight; " +
 		"within 3s: every port's per-process map empty, both tracers empty, agent lists no process and no frame, engine goroutine count back to its value before the workload"
 	return out
+}
+
+// probeAgentExitDuringOpen05: a process terminates after a port found it alive and before the agent's open hook sees
+// it.  Whatever the agent recorded for it must be gone once the open returns: no process listed, no frame.
+func probeAgentExitDuringOpen05() (fail string) {
+	defer func() {
+		if p := recover(); p != nil {
+			fail = fmt.Sprintf("agent exit-during-open probe panicked: %v", p)
+		}
+	}()
+	n := node.NewOneToOneNode(nil)
+	sb := &symbol.Symbol{Spec: &spec.Meta{ID: uuid.Must(uuid.NewV7()), Kind: "k", Namespace: "default", Name: "probe"}, Node: n}
+	in := sb.In(node.PortIn)
+	sb.Out(node.PortOut)
+	agent := uruntime.NewAgent()
+	if err := agent.Load(sb); err != nil {
+		return "agent.Load: " + err.Error()
+	}
+	dying := process.New()
+	in.AddOpenHook(port.OpenHookFunc(func(proc *process.Process) { // registered last, so it runs first
+		if proc == dying {
+			proc.Exit(nil)
+		}
+	}))
+	opened := make(chan struct{})
+	go func() { in.Open(dying); close(opened) }()
+	select {
+	case <-opened:
+	case <-time.After(2 * time.Second):
+		return "opening a port for a process that terminates during the open does not return while the agent is attached"
+	}
+	time.Sleep(2 * time.Millisecond)
+	if agent.Process(dying.ID()) != nil || len(agent.Processes()) != 0 {
+		return "the agent still lists a process that terminated while its port was being opened"
+	}
+	if n := len(agent.Frames(dying.ID())); n != 0 {
+		return fmt.Sprintf("the agent holds %d frame(s) of a process that terminated while its port was being opened", n)
+	}
+	_ = agent.Unload(sb)
+	agent.Close()
+	_ = sb.Close()
+	return ""
 }
